@@ -38,10 +38,10 @@ var assumptions = []string{
 	"The default polling scheduler (nil PollingScheduler: round robin every 5 s) is not driven: its emissions cannot be observed from outside and no wall-clock argument may decide a violation.",
 }
 
-func runCase(sp *spec) vrun.Result {
+func runCase(sp *spec, verbose bool) vrun.Result {
 	abort := make(chan struct{})
 	var res vrun.Result
-	ok, dump := vrun.Watchdog(90*time.Second, func() { res = execCase(sp, abort) })
+	ok, dump := vrun.Watchdog(90*time.Second, func() { res = execCase(sp, abort, verbose) })
 	if !ok {
 		close(abort)
 		if len(dump) > 3000 {
@@ -56,19 +56,19 @@ func runCase(sp *spec) vrun.Result {
 
 func TestC19Routing(t *testing.T) {
 	e := vrun.LoadEnv()
-	meta := vrun.Meta{Property: "C19", Workload: "TestC19Routing", Total: e.Pick(1500, 30000), Assumptions: assumptions,
+	meta := vrun.Meta{Property: "C19", Workload: "TestC19Routing", Total: e.Pick(8000, 100000), Assumptions: assumptions,
 		Rule: "Each case draws from its PRNG: 1-5 scripted member transports (some implementing transport.Closer, some failing Close, some unreliable-capable), a member as initial id, a scheduler (event scheduler fed by the harness; NICEventSubscriber fed NIC names; polling scheduler with a scripted poller; polling scheduler with the library's RoundRobinPoller) and 1-10 selections of member ids, 1-8 concurrent writer goroutines (<=36 writes) with generated pauses, 0-5 messages per member read queue, 1-3 Read callers. Runs in real time with real parallelism. Non-trivial: at least one selection that changes the member was observed applied and writes happened. Distinct: (mode, member count, writers, consumers, hash of members/script/feeds)."}
 	vrun.Loop(t, meta, 0, func(c *vrun.Case) vrun.Result {
-		return runCase(genSpec(c.Rng, "routing"))
+		return runCase(genSpec(c.Rng, "routing"), c.Index < 24)
 	})
 }
 
 func TestC19NonMember(t *testing.T) {
 	e := vrun.LoadEnv()
-	meta := vrun.Meta{Property: "C19", Workload: "TestC19NonMember", Total: e.Pick(600, 8000), Assumptions: assumptions,
+	meta := vrun.Meta{Property: "C19", Workload: "TestC19NonMember", Total: e.Pick(2500, 25000), Assumptions: assumptions,
 		Rule: "Same generator as TestC19Routing, but every case names a transport id outside the member set: the initial id is empty or unknown (35%), or the event scheduler / NIC subscriber / scripted poller emits 1-3 empty or unknown ids between member ids (40%; the driver then calls Write, AsUnreliable and NegotiationParams up to 60 times before it goes on), or the RoundRobinPoller is built over a list holding an empty/unknown id or over no list (10%), or the library's LastUsedPoller drives the polling scheduler (15%). Non-trivial: a non-member id was configured or emitted and writes happened (or NewTransport rejected the configuration). Distinct: as TestC19Routing plus the outcome."}
 	vrun.Loop(t, meta, 0, func(c *vrun.Case) vrun.Result {
-		return runCase(genSpec(c.Rng, "nonmember"))
+		return runCase(genSpec(c.Rng, "nonmember"), c.Index < 24)
 	})
 }
 
